@@ -34,7 +34,7 @@ func (r Report) isEqual(nr Report) bool {
 	if r.Problem.Lines.First != nr.Problem.Lines.First {
 		return false
 	}
-	if r.Problem.Lines.Last != nr.Rule.Lines.Last {
+	if r.Problem.Lines.Last != nr.Problem.Lines.Last {
 		return false
 	}
 	if !nr.Rule.IsSame(r.Rule) {
@@ -46,7 +46,10 @@ func (r Report) isEqual(nr Report) bool {
 	if nr.Problem.Summary != r.Problem.Summary {
 		return false
 	}
-	if !isSameDiagnostics(nr.Problem.Diagnostics, r.Problem.Diagnostics) {
+	if nr.Problem.Details != r.Problem.Details {
+		return false
+	}
+	if !isSameDiagnostics(nr.Problem.Diagnostics, r.Problem.Diagnostics) || !isSameDiagnostics(r.Problem.Diagnostics, nr.Problem.Diagnostics) {
 		return false
 	}
 	if nr.Problem.Severity != r.Problem.Severity {
